@@ -13,7 +13,9 @@ RULE = (
     "complete product beam geometry x ny x side x model x displacement-field family (each unit DOF, rigid translations, linearised rigid "
     "rotations about 3 axes, pure axial stretch / bending about both local axes / torsion of every element, generic) x scale; KS: complete "
     "product N elements x criteria x stress pattern x magnitude x yield x rho; non-trivial = distinct (configuration, field) with the "
-    "expected stress non-zero (or a rigid/zero case)"
+    "expected stress non-zero (or a rigid/zero case); part aspoint: two-surface AerostructPoint (symmetry x model x equal/different lattice shapes x "
+    "which entry differs: material, allowable, failure form, strength factor; odd surface first and last): each perf group's stresses and failure == the real "
+    "stress / failure components built with that surface's own dictionary on its own converged state"
 )
 ASSUMPTIONS = ["finite alphabets; ny<=5", "element local frame convention x' along element, y' = x' cross global x (as documented for the FEM)", "OpenMDAO/NumPy trusted"]
 BOUND = {"quick": "ny in {2,3}", "thorough": "ny in {2,3,5}"}
